@@ -125,6 +125,7 @@ def unexcused_report(stderr, stdout, stats=None):
 class C20(Prop):
     ID = "C20"
     NEEDS_TSAN = True
+    COLD_PROBES = False   # every case already runs in a process of its own (the driver)
     # a failure that depends on the schedule need not recur on every replay; a digest that differs from the solo run or a
     # ThreadSanitizer report is never a false alarm, so one reproduction in eight fresh runs confirms it
     CONFIRM_TRIES = 8
